@@ -5,6 +5,8 @@ from ..cfg import CFG
 from ..lib import (params, returns_of, is_none_const)
 from . import c10
 
+from . import extra as X
+
 EXPLANATION = ("Per state type the writer's and the reader's extension tables are extracted from as_bytes/from_bytes; the default "
                "extension must be in both (armed for the five types of state_types.py and DataframeStateType, all shipped types in "
                "the thorough tier as cross-reference). Identifiers are string constants, unique over all shipped types, and the same "
@@ -266,6 +268,7 @@ def run(chk):
     rule_element_triple(chk, "C11.4")
     c10.rule_type_copy(chk, "C11.5")
     rule_lossless_writers(chk, "C11.6")
+    X.rule_element_receivers(chk, "C11.7")
 
 
 def run_thorough(chk):
